@@ -241,6 +241,9 @@ def check_c04(prog, img, members_from_prog=True):
             if t["p_memsz"] < t["p_filesz"]:
                 v.append(("memsz<filesz", f"segment {j}"))
             for m in g["members"]:
+                if m >= len(d["sections"]):
+                    v.append(("member-missing", f"segment {j} member {m}: the saved file has only {len(d['sections'])} sections"))
+                    continue
                 s = d["sections"][m]
                 if elfspec.occupies_file(s["sh_type"]):
                     if not (t["p_offset"] <= s["sh_offset"] and s["sh_offset"] + s["sh_size"] <= t["p_offset"] + t["p_filesz"]):
